@@ -276,7 +276,13 @@ class Mono:
                 continue
             if isinstance(st, ast.If) and isinstance(st.test, ast.UnaryOp) and isinstance(st.test.op, ast.Not) \
                     and call_name(st.test.operand) == 'isinstance':
-                # text-to-number conversion prelude: the converted value increases with the mark it denotes
+                # text-to-number conversion prelude: the converted value increases with the mark it denotes;
+                # the arm taken by a numeric mark (the else arm, usually empty) is the one analysed
+                self._block(st.orelse, rets)
+                continue
+            if isinstance(st, ast.If) and call_name(st.test) == 'isinstance':
+                # the same prelude written the other way round: `if isinstance(perf, (int, float)): v = perf  else: <convert the text>`
+                self._block(st.body, rets)
                 continue
             if isinstance(st, ast.If):
                 names_t = {t.id for s in ast.walk(ast.Module(body=st.body, type_ignores=[])) if isinstance(s, ast.Assign)
